@@ -502,19 +502,46 @@ func newIPFileOpener(ipFile string) scan.OpenFileFunc {
 			return os.Open(ipFile)
 		}
 	}
+	// stdin is read in the background: opening must not wait for the end of the input
+	// (the scan could not be cancelled before that), only reading does
+	in := &stdinContent{loaded: make(chan struct{})}
 	var once sync.Once
-	var data []byte
-	var err error
 	return func() (io.ReadCloser, error) {
 		once.Do(func() {
-			data, err = io.ReadAll(os.Stdin)
+			go func() {
+				defer close(in.loaded)
+				in.data, in.err = io.ReadAll(os.Stdin)
+			}()
 		})
-		if err != nil {
-			return nil, err
-		}
-		return io.NopCloser(bytes.NewReader(data)), nil
+		return &stdinReader{in: in}, nil
 	}
 }
+
+// stdinContent is everything that was read from stdin, once it has been read
+type stdinContent struct {
+	loaded chan struct{}
+	data   []byte
+	err    error
+}
+
+// stdinReader reads stdinContent from the start
+type stdinReader struct {
+	in *stdinContent
+	r  *bytes.Reader
+}
+
+func (s *stdinReader) Read(p []byte) (int, error) {
+	if s.r == nil {
+		<-s.in.loaded
+		if s.in.err != nil {
+			return 0, s.in.err
+		}
+		s.r = bytes.NewReader(s.in.data)
+	}
+	return s.r.Read(p)
+}
+
+func (*stdinReader) Close() error { return nil }
 
 func parsePortRange(portsRange string) (r *scan.PortRange, err error) {
 	ports := strings.Split(portsRange, "-")
